@@ -94,6 +94,7 @@ def run(ctx):
     c10_1(ctx, bc, bi_)
     c10_2(ctx, bc, bi_)
     c10_3(ctx, bc, bi_)
+    c10_derived(ctx)
     c10_4(ctx)
 
 
@@ -236,6 +237,45 @@ def c10_3(ctx, bc, bi_):
         ctx.ob(R, "guard:" + nm, ok,
                "the batch is rejected iff new byte cost%s + block_cost + cost > max block cost (strict >)" % (" + wrapper" if wrapper else ""),
                found=[g[1][:200] for g in guards][:4])
+
+
+def c10_derived(ctx):
+    """compressed builder: byte_cost is a function of the serializer state — (ser.size() + 2) * cost_per_byte. After every call that
+    changes the serializer (add, restore) it is recomputed before the function returns, so a rejected attempt leaves no trace in the
+    state later decisions read"""
+    R = "C10.2"
+    f = _find(ctx.fb, CB + "::add_spend_bundles")
+    if not f:
+        return ctx.missing(R, "derived-byte-cost", "add_spend_bundles not found")
+    b = Body(f, ctx.fb)
+    recompute = set()
+    for bi, blk in enumerate(b.blocks):
+        if bi not in b.reach:
+            continue
+        for st in blk["s"]:
+            if st["k"] == "assign" and st["pl"].get("p") and isinstance(st["pl"]["p"][-1], dict) and st["pl"]["p"][-1].get("n") == "byte_cost":
+                v = show(strip_all(b.rvalue_term(st["rv"])))
+                if "Serializer::size" in v and "cost_per_byte" in v:
+                    recompute.add(bi)
+    muts = [(bi, U.flat(n).split("::")[-1]) for bi, n, t in b.calls() if U.flat(n).endswith(("Serializer::add", "Serializer::restore"))]
+    exits = [e for e in b.return_blocks() if e in b.reach]
+    # `?` exits after a failed add leave the builder unusable (the caller gets Err): only value returns are required
+    err = set(b.err_exits())
+    bad = []
+    for bi, nm in muts:
+        nxt = b.blocks[bi]["t"].get("t")
+        if nxt is None:
+            continue
+        if nxt in recompute:
+            continue
+        # any Ok((..)) return reachable without a recomputation?
+        for e in b.ok_exits():
+            if b.reachable_avoiding(nxt, [e], recompute):
+                bad.append("%s at %s reaches a return without recomputing byte_cost" % (nm, b.where(bi)))
+                break
+    ctx.ob(R, "derived-byte-cost", len(muts) >= 2 and bool(recompute) and not bad,
+           "byte_cost is recomputed from the serializer size after every Serializer::add / restore before add_spend_bundles returns (%d mutation sites)" % len(muts),
+           found=bad or None, where=f.sp)
 
 
 def c10_4(ctx):
